@@ -15,6 +15,18 @@ WT="$(mktemp -d /tmp/seedwt.XXXXXX)"; rmdir "$WT"
 git -C /repo worktree add -q --detach "$WT" HEAD || exit 2
 cleanup() { git -C /repo worktree remove --force "$WT" >/dev/null 2>&1; rm -rf "$WT"; }
 trap cleanup EXIT
+# SEEDCHECK_SKIP_CONFIRM=1: the change was confirmed when it was stored (meta.json: confirmed_by_me); only apply it and run the check
+if [ "${SEEDCHECK_SKIP_CONFIRM:-}" = 1 ]; then
+  PATCH="$SD/patch.diff"; [ -f "$SD/patch-rebased.diff" ] && PATCH="$SD/patch-rebased.diff"
+  git -C "$WT" apply "$PATCH" || { echo "SEED $PROP: patch does not apply"; exit 2; }
+  (cd "$WT" && go build ./...) || { echo "SEED $PROP: does not build"; exit 2; }
+  out="$(VERIF_REPO="$WT" "$VHOME/simctl" check "$CHECK" --tier "${SEED_TIER:-quick}" "$@" 2>&1)"; rc=$?
+  echo "$out" | grep -E '^(VIOLATION|  clause|simh:)' | cut -c1-400
+  git -C "$VHOME" checkout -q -- "evidence/$CHECK.json" 2>/dev/null
+  rm -f "$VHOME"/replays/"$CHECK"-*-????????????????.json
+  case $rc in 1) echo "SEED $PROP: CAUGHT";; 0) echo "SEED $PROP: MISSED";; *) echo "SEED $PROP: check exit $rc (infrastructure)"; echo "$out" | tail -5;; esac
+  exit 0
+fi
 suite() { (cd "$WT" && go test -vet=off -count=1 . ./internal/... 2>&1 | grep -E '^(--- FAIL|ok|FAIL)' | grep -v seeded | sed -E 's/[ (]*[0-9.]+s\)?$//' | sort); }
 BASE="$(suite)"
 DEMO="$(ls "$SD"/*_test.go 2>/dev/null | head -1)"
